@@ -366,7 +366,8 @@ async fn get_oldest_segments(topic: &Topic) -> Vec<SegmentsToHandle> {
     for partition in topic.partitions.values() {
         let partition = partition.read().await;
         if let Some(segment) = partition.get_segments().first() {
-            if !segment.is_closed {
+            // The only segment of a partition holds its newest messages, it is never deleted.
+            if !segment.is_closed || partition.get_segments().len() == 1 {
                 continue;
             }
 
